@@ -1,23 +1,37 @@
 #!/usr/bin/env python3
-"""Sensitivity harness: apply one small mutation to /repo's working tree, run the quick check(s)
-that should notice, revert. Usage: tools/sens.py [mutation-id ...] (default: all).
-Never leaves /repo modified (git checkout in a finally block); refuses to start on a dirty tree."""
-import subprocess, sys, json, time, os, re
+"""Sensitivity harness: apply one small mutation at a time to a SCRATCH COPY of /repo (never /repo
+itself), run the quick check(s) that should notice from a scratch copy of /verif whose harness
+points at the mutated copy, and report. Usage: tools/sens.py [mutation-id-prefix ...] (default: all).
+Scratch space: /tmp/sens (removed with tools/sens.py --clean)."""
+import subprocess, sys, json, time, os, shutil
 
-MUTS = json.load(open(os.path.join(os.path.dirname(__file__), 'mutations.json')))
+HERE = os.path.dirname(os.path.abspath(__file__))
+MUTS = json.load(open(os.path.join(HERE, 'mutations.json')))
+S = '/tmp/sens'
 
 def sh(cmd, **kw):
     return subprocess.run(cmd, shell=True, capture_output=True, text=True, **kw)
 
+def prepare():
+    os.makedirs(S, exist_ok=True)
+    sh(f'rsync -a --delete --exclude target /repo/ {S}/repo/')
+    sh(f'rsync -a --delete --exclude target-tuftool --exclude /replays --exclude /evidence /verif/ {S}/verif/')
+    ct = f'{S}/verif/harness/Cargo.toml'
+    t = open(ct).read().replace('/repo/tough', f'{S}/repo/tough').replace('/repo/olpc-cjson', f'{S}/repo/olpc-cjson')
+    open(ct, 'w').write(t)
+    # the harness builds tuftool from /repo: redirect through the environment
+    os.environ['VERIF_REPO_DIR'] = f'{S}/repo'
+
 def main():
-    want = sys.argv[1:]
-    if sh('git -C /repo status --porcelain').stdout.strip():
-        print('refusing: /repo working tree is dirty'); sys.exit(2)
+    args = sys.argv[1:]
+    if args == ['--clean']:
+        shutil.rmtree(S, ignore_errors=True); return
+    prepare()
     results = []
     for m in MUTS:
-        if want and m['id'] not in want and not any(m['id'].startswith(w) for w in want):
+        if args and not any(m['id'].startswith(w) for w in args):
             continue
-        path = '/repo/' + m['file']
+        path = f"{S}/repo/" + m['file']
         src = open(path).read()
         if src.count(m['old']) != 1:
             print(f"{m['id']}: pattern occurs {src.count(m['old'])} times, skipped"); results.append((m['id'], 'SKIP')); continue
@@ -25,17 +39,15 @@ def main():
             open(path, 'w').write(src.replace(m['old'], m['new']))
             for prop in m['props']:
                 t = time.time()
-                r = sh(f'cd /verif && ./check {prop} quick')
+                r = sh(f'cd {S}/verif && ./check {prop} quick')
                 dt = time.time() - t
                 viol = [l for l in r.stdout.splitlines() if l.startswith('VIOLATION')]
-                status = 'CAUGHT' if r.returncode == 1 and viol else ('BUILD/HARNESS-ERROR' if r.returncode == 2 else 'MISSED')
+                status = 'CAUGHT' if r.returncode == 1 and viol else ('HARNESS-ERROR' if r.returncode == 2 else 'MISSED')
                 msg = [l for l in r.stderr.splitlines() if l.startswith('violation in part')]
-                print(f"{m['id']:40s} {prop} {status:8s} {dt:5.1f}s {msg[0][:160] if msg else r.stderr.strip()[-200:] if status!='MISSED' else ''}")
+                print(f"{m['id']:42s} {prop} {status:8s} {dt:5.1f}s {msg[0][:170] if msg else (r.stderr.strip()[-300:] if status != 'MISSED' else '')}", flush=True)
                 results.append((m['id'] + ':' + prop, status))
         finally:
-            sh(f"git -C /repo checkout -- {m['file']}")
-    # remove replay files produced by mutations
-    sh('cd /verif && git clean -fdq replays')
+            open(path, 'w').write(src)
     bad = [r for r in results if r[1] != 'CAUGHT']
     print(f"{len(results) - len(bad)}/{len(results)} caught")
     sys.exit(1 if bad else 0)
